@@ -179,6 +179,16 @@ STRUCT = {
                                           O('m', RX), "h", C('m'), "B", H(1)],
     # characters that some tools count as line terminators are ordinary text here: U+2028, U+2029, U+0085, vertical tab, form feed
     'unicode-line-separators-are-text': ["A\u2028x\n", H(1, 'ind'), O('m', RX), "\nq\u2029r\x0b\n\x0cs\u0085\n", C('m'), "\n", H(1, 'txt'), "B\u2028\n", O('t', RT), "\nz\n", C('t'), "\n"],
+    # exactly the two wrapper lines between the tags (an empty block): still unwrapped
+    'unwrap-two-lines-between': ["A\n", H(1, 'ind'), O('m', RX + ' unwrap-block'), "\nif (x) {", H(1, 'txt'), "\n", H(1, 'ind'), "}\n", C('m'), "\nB", H(1), "\n"],
+    # the deciding attribute given twice: the first one decides (a valueless / pending first one keeps the element)
+    'duplicate-deciding-attributes': ["A\n", O('t', "to " + RT), "\nq\n", C('t'), "\n", O('t', PT + " " + RT), "r", C('t'), H(1, 'ws'), O('m', PN + " " + RX), "s", C('m'), "\n",
+                                      O('m', "name " + RX), "u", C('m'), "\n", O('m', RX + " " + PN), "v", C('m'), "\nB", H(1), "\n"],
+    'duplicate-deciding-attributes-none-ready': ["A\n", O('t', "to " + RT), "\nq\n", C('t'), "\n", O('t', PT + " " + RT), "r", C('t'), H(1, 'ws'), O('m', PN + " " + RX), "s", C('m'), "\n",
+                                                 O('m', "name " + RX), "u", C('m'), "\nB", H(1), "\n"],
+    # unquoted values are outside the tag grammar (malformed tag = text); a line break behind one / between '=' and the quote does not rescue the tag
+    'malformed-unquoted-value-then-line-break': ["A\n", ('x', "t owner=team-a\nto='2001-01-01 00:00:00'"), "\nq\n", C('t'), "\n", H(1, 'ws'), ('x', "m ticket=1234\nname='x'"), "r", C('m'), "\n",
+                                                 ('x', "t to=\n'2001-01-01 00:00:00'"), "s", C('t'), "\nB", H(1), "\n"],
     'unwrap-adjacent-lines': [H(1), "A ", O('m', RX + ' unwrap-block'), H(1, 'ind'), "\n", H(1, 'ind'), C('m'), " B", H(1)],
 }
 
@@ -722,6 +732,13 @@ def c01_pipe_jobs(tier, seed):
             for cname, cfg in (cfgs[:2] if extra and tier != 'quick' else cfgs[:1]):
                 jobs.append(dict(harness='c01_pipe', label=f'{name} holes={sizes} cfg={cname}',
                                  params=dict(tpl=instantiate(tpl, sizes), cfg=cfg, wrapper='wrapper' in name)))
+    # configurations with unusual strings: multi-byte / empty / blank target names, multi-byte tag names and offsets that are not offsets
+    odd = [('multi-byte targets', dict(targets=[list('新機能'.encode()), list('é'.encode())])), ('empty and blank targets', dict(targets=[[], [32], list(b'*')])),
+           ('multi-byte offset', dict(tl_offset=list('＋09:00'.encode()))), ('multi-byte tag names', dict(tl_tag=list('期限'.encode()), rm_tag=list('m'.encode())))]
+    for name in ('block', 'ready-in-pending', 'unwrap-pending', 'inline') + (() if tier == 'quick' else ('two-blocks', 'unwrap', 'pending-in-ready', 'touching')):
+        for cname, cfg in odd:
+            for sizes in variants(STRUCT[name], 2, 2, rnd, 1):
+                jobs.append(dict(harness='c01_pipe', label=f'{name} holes={sizes} cfg={cname}', params=dict(tpl=instantiate(STRUCT[name], sizes), cfg=cfg, wrapper=False)))
     tj = transformed_jobs('C01', tier, seed, harness='c01_pipe', extra_params=dict(cfg={}, wrapper=False))
     return jobs + (tj[:24] if tier == 'quick' else random.Random(seed + 5).sample(tj, min(len(tj), 240))) + scale_jobs('C01', tier, harness='c01_pipe', extra_params=dict(cfg={}, wrapper=False))
 
